@@ -2,6 +2,7 @@ import Goyang.Model.Ctx
 import Goyang.Model.Err
 import Goyang.Model.Number
 import Goyang.Model.Range
+import Goyang.Model.Enum
 import Goyang.Model.Identity
 /-
 Impl model of pkg/yang/types.go (typeDictionary add / find / findInModule / findExternal /
@@ -38,62 +39,23 @@ abbrev YangRange := Range.YangRange
 
 def bytesOf (s : String) : List UInt8 := s.toUTF8.toList
 
-/-! ## EnumType (interface `EnumIface`)
+/-! ## EnumType: `Goyang.Model.Enum` (property C14) -/
 
-PLACEHOLDER until `Goyang.Model.Enum` (property C14) is available: the same transliteration of
-`EnumType.Set` / `SetNext` (as repaired by 85b770e) kept local so that enumerations and bits are
-inside the model from the start.  Swap for the shared definitions when they compile. -/
-section EnumIface
-
-/-- Go: `EnumType` (`ToString` and `ToInt` as association lists with unique keys). -/
-structure EnumTab where
-  last : Int := -1
-  min : Int
-  max : Int
-  unique : Bool
-  toStr : List (Int × String) := []
-  toInt : List (String × Int) := []
-  deriving Repr, Inhabited, BEq
+abbrev EnumTab := Enum.EnumType
 
 /-- Go: `NewEnumType()`. -/
-def newEnum : EnumTab := { min := -2147483648, max := 2147483647, unique := true }
+def newEnum : EnumTab := Enum.newEnumType
 /-- Go: `NewBitfield()`. -/
-def newBits : EnumTab := { min := 0, max := 4294967295, unique := false }
+def newBits : EnumTab := Enum.newBitfield
 
-/-- Go map assignment on `ToString`. -/
-def bindVal (m : List (Int × String)) (v : Int) (n : String) : List (Int × String) :=
-  if m.any (·.1 == v) then m.map (fun kv => if kv.1 == v then (v, n) else kv) else m ++ [(v, n)]
-
-/-- Go: `EnumType.Set`; the error is its class. -/
-def EnumTab.set (e : EnumTab) (name : String) (value : Int) : Except String EnumTab :=
-  if e.toInt.any (·.1 == name) then .error "enum-dup-name"
-  else if e.unique && e.toStr.any (·.1 == value) then .error "enum-dup-value"
-  else if value < e.min then .error "enum-too-small"
-  else if value > e.max then .error "enum-too-large"
-  else
-    let last := if e.toInt.isEmpty || value ≥ e.last then value else e.last
-    .ok { e with last := last, toStr := bindVal e.toStr value name, toInt := e.toInt ++ [(name, value)] }
-
-/-- Go: `EnumType.SetNext`. -/
-def EnumTab.setNext (e : EnumTab) (name : String) : Except String EnumTab :=
-  if e.toInt.isEmpty then e.set name 0
-  else if e.last == e.max then .error "enum-max-reached"
-  else e.set name (e.last + 1)
-
-/-- The closure `set` of `Type.resolve`: `value` is the argument of the `value` / `position`
-substatement when there is one. -/
-def enumSet (e : EnumTab) (name : String) (value : Option String) : Except String EnumTab :=
-  match value with
-  | none => e.setNext name
-  | some v =>
-    match Number.parseInt (bytesOf v) with
-    | .error _ => .error "other"
-    | .ok n =>
-      match Number.toInt n with
-      | .error _ => .error "other"
-      | .ok i => e.set name i
-
-end EnumIface
+/-- Class of the message of an error of `Set` / `SetNext` / the `set` closure. -/
+def enumErrClass : Enum.EnumErr → String
+  | .dupName => "enum-dup-name"
+  | .dupValue => "enum-dup-value"
+  | .tooSmall => "enum-too-small"
+  | .tooLarge => "enum-too-large"
+  | .needValue => "enum-max-reached"
+  | .num _ => "other"
 
 /-- `cmp.Equal` on two Go maps rendered as association lists with unique keys. -/
 def mapEq {α β : Type} [BEq α] [BEq β] (a b : List (α × β)) : Bool :=
@@ -102,7 +64,7 @@ def mapEq {α β : Type} [BEq α] [BEq β] (a b : List (α × β)) : Bool :=
 /-- The comparer handed to `cmp.Equal` in `YangType.Equal`, lifted to the two pointers. -/
 def enumEq : Option EnumTab → Option EnumTab → Bool
   | none, none => true
-  | some a, some b => a.unique == b.unique && mapEq a.toInt b.toInt && mapEq a.toStr b.toStr
+  | some a, some b => a.unique == b.unique && mapEq a.toInt b.toInt && mapEq a.toString b.toString
   | _, _ => false
 
 /-! ## YangType -/
@@ -344,13 +306,10 @@ def appendNew (have_ : List String) : List String → List String
   | [] => have_
   | p :: rest => if have_.contains p then appendNew have_ rest else appendNew (have_ ++ [p]) rest
 
-/-- The enum / bit loop: a fresh table, one error per rejected member. -/
+/-- The enum / bit loop: a fresh table, one error per rejected member (positioned at the member). -/
 def enumFold (start : EnumTab) (valueKw : String) (members : List Stmt) : EnumTab × List Err :=
-  members.foldl (fun (acc : EnumTab × List Err) e =>
-      match enumSet acc.1 e.arg (e.argOf? valueKw) with
-      | .ok tab => (tab, acc.2)
-      | .error cls => (acc.1, acc.2 ++ [Err.at_ e cls]))
-    (start, [])
+  let r := Enum.foldText start (members.map fun e => (bytesOf e.arg, (e.argOf? valueKw).map bytesOf))
+  (r.1, r.2.filterMap fun ie => (members[ie.1]?).map fun e => Err.at_ e (enumErrClass ie.2))
 
 /-- The `looking:` loop: append the resolved members that are not `Equal` to one already there. -/
 def addMembers (have_ : List YType) : List Res → List YType
@@ -360,84 +319,114 @@ def addMembers (have_ : List YType) : List Res → List YType
     | some m => if have_.any (fun yt => m.equal yt) then addMembers have_ rest else addMembers (have_ ++ [m]) rest
     | none => addMembers have_ rest
 
+/-- The resolved type under construction and the errors collected so far (`y`, `errs`). -/
+abbrev St := YType × List Err
+
+/-- `if v := t.RequireInstance; v != nil { … }` -/
+def stepRequireInstance (t : Stmt) (s : St) : St :=
+  match t.one? "require-instance" with
+  | none => s
+  | some v =>
+    if v.arg == "true" then ({ s.1 with optionalInstance := false }, s.2)
+    else if v.arg == "false" then ({ s.1 with optionalInstance := true }, s.2)
+    else ({ s.1 with optionalInstance := true }, s.2 ++ [Err.bare "other"])
+
+/-- `if v := t.Path; v != nil { y.Path = v.asString() }` -/
+def stepPath (t : Stmt) (s : St) : St :=
+  match t.one? "path" with
+  | some v => ({ s.1 with path := v.arg }, s.2)
+  | none => s
+
+/-- Go: `isDecimal64 := y.Kind == Ydecimal64 && (t.Name == "decimal64" || y.FractionDigits != 0)`. -/
+def isDecimal64 (t : Stmt) (y : YType) : Bool :=
+  y.kind == "decimal64" && (t.arg == "decimal64" || y.fractionDigits != 0)
+
+/-- The `switch` on the kind, but for its first arm's early return: fraction-digits of a direct
+decimal64, a misplaced fraction-digits, the base of a direct identityref. -/
+def stepKind (env : Env) (root : Mod) (t : Stmt) (source : Source) (dec : Bool) (s : St) : St :=
+  let fdStmt := t.one? "fraction-digits"
+  if dec && s.1.fractionDigits != 0 then s
+  else if dec then
+    match Number.asRangeInt (fdStmt.map fun f => bytesOf f.arg) 1 18 with
+    | .ok i => ({ s.1 with fractionDigits := i.toNat, range := Range.decimalBase i.toNat }, s.2)
+    | .error _ => ({ s.1 with fractionDigits := 0, range := Range.decimalBase 0 }, s.2 ++ [Err.at_ t "other"])
+  else if fdStmt.isSome then (s.1, s.2 ++ [Err.at_ t "fraction-digits-not-decimal"])
+  else if s.1.kind == "identityref" then
+    if source != .builtin then s
+    else
+      match t.one? "base" with
+      | none => (s.1, s.2 ++ [Err.at_ t "identityref-no-base"])
+      | some b =>
+        match Identity.findIdentityBase env.reg env.dict root b.arg with
+        | .error e => (s.1, s.2 ++ [e])
+        | .ok e => ({ s.1 with identityBase := some e.key }, s.2)
+  else s
+
+/-- `if t.Range != nil { … }` -/
+def stepRange (t : Stmt) (dec : Bool) (s : St) : St :=
+  match t.one? "range" with
+  | none => s
+  | some r =>
+    match Range.applyRange s.1.range (bytesOf r.arg) dec s.1.fractionDigits with
+    | (yr, none) => ({ s.1 with range := yr }, s.2)
+    | (yr, some _) => ({ s.1 with range := yr }, s.2 ++ [Err.at_ r "bad-range"])
+
+/-- `if t.Length != nil { … }` -/
+def stepLength (t : Stmt) (s : St) : St :=
+  match t.one? "length" with
+  | none => s
+  | some l =>
+    match Range.applyLength s.1.length (bytesOf l.arg) with
+    | (yl, none) => ({ s.1 with length := yl }, s.2)
+    | (yl, some .negLength) => ({ s.1 with length := yl }, s.2 ++ [Err.at_ l "negative-length"])
+    | (yl, some _) => ({ s.1 with length := yl }, s.2 ++ [Err.at_ l "bad-length"])
+
+/-- `if len(t.Enum) > 0 { … }` -/
+def stepEnum (t : Stmt) (s : St) : St :=
+  match t.all "enum" with
+  | [] => s
+  | es => ({ s.1 with enum := some (enumFold newEnum "value" es).1 }, s.2 ++ (enumFold newEnum "value" es).2)
+
+/-- `if len(t.Bit) > 0 { … }` -/
+def stepBit (t : Stmt) (s : St) : St :=
+  match t.all "bit" with
+  | [] => s
+  | bs => ({ s.1 with bit := some (enumFold newBits "position" bs).1 }, s.2 ++ (enumFold newBits "position" bs).2)
+
+/-- the pattern loop -/
+def stepPattern (t : Stmt) (s : St) : St :=
+  ({ s.1 with pattern := appendNew s.1.pattern ((t.all "pattern").map Stmt.arg) }, s.2)
+
+/-- the posix-pattern loop over the matching extension statements -/
+def stepPosix (env : Env) (pps : List Stmt) (s : St) : St :=
+  ({ s.1 with posixPattern := appendNew s.1.posixPattern (pps.map Stmt.arg) },
+   s.2 ++ (pps.filter fun e => !env.posixOk e.arg).map fun e => Err.at_ e "bad-pattern")
+
+/-- the `looking:` loop over the resolved member types -/
+def stepMembers (members : List Res) (s : St) : St :=
+  ({ s.1 with members := addMembers s.1.members members }, s.2 ++ members.flatMap (·.errs))
+
+/-- `if !y.Equal(y.Root) { y.Root = &y }` -/
+def fixRoot (y : YType) : YType := if !y.equalsRoot then { y with root := none } else y
+
+/-- The overlays up to and including the patterns. -/
+def overlayLocal (env : Env) (root : Mod) (t : Stmt) (source : Source) (tdY : YType) (s : St) : St :=
+  let dec := isDecimal64 t tdY
+  stepPattern t (stepBit t (stepEnum t (stepLength t (stepRange t dec (stepKind env root t source dec s)))))
+
 /-- Go: `Type.resolve` from `y := *td.YangType` on.  `tdY` is `td.YangType`, `members` the results
 of resolving the `type` substatements of `t` (used only when the code gets that far). -/
 def overlayType (env : Env) (root : Mod) (t : Stmt) (source : Source) (tdY : YType) (members : List Res) : Res :=
-  let y : YType := tdY.copyOf
-  let errs : List Err := []
-  -- require-instance
-  let (y, errs) := match t.one? "require-instance" with
-    | none => (y, errs)
-    | some v =>
-      if v.arg == "true" then ({ y with optionalInstance := false }, errs)
-      else if v.arg == "false" then ({ y with optionalInstance := true }, errs)
-      else ({ y with optionalInstance := true }, errs ++ [Err.bare "other"])
-  -- path
-  let y := match t.one? "path" with
-    | some v => { y with path := v.arg }
-    | none => y
-  let isDecimal64 := y.kind == "decimal64" && (t.arg == "decimal64" || y.fractionDigits != 0)
-  let fdStmt := t.one? "fraction-digits"
-  if isDecimal64 && y.fractionDigits != 0 && fdStmt.isSome then
-    { ty := some y, errs := errs ++ [Err.at_ t "fraction-digits-override"] }
+  let s1 := stepPath t (stepRequireInstance t (tdY.copyOf, []))
+  if isDecimal64 t tdY && tdY.fractionDigits != 0 && (t.one? "fraction-digits").isSome then
+    { ty := some s1.1, errs := s1.2 ++ [Err.at_ t "fraction-digits-override"] }
   else
-  let (y, errs) : YType × List Err :=
-    if isDecimal64 && y.fractionDigits != 0 then (y, errs)
-    else if isDecimal64 then
-      let (i, errs) : Nat × List Err :=
-        match Number.asRangeInt (fdStmt.map fun s => bytesOf s.arg) 1 18 with
-        | .ok i => (i.toNat, errs)
-        | .error _ => (0, errs ++ [Err.at_ t "other"])
-      ({ y with fractionDigits := i, range := Range.decimalBase i }, errs)
-    else if fdStmt.isSome then (y, errs ++ [Err.at_ t "fraction-digits-not-decimal"])
-    else if y.kind == "identityref" then
-      if source != .builtin then (y, errs)
-      else
-        match t.one? "base" with
-        | none => (y, errs ++ [Err.at_ t "identityref-no-base"])
-        | some b =>
-          match Identity.findIdentityBase env.reg env.dict root b.arg with
-          | .error e => (y, errs ++ [e])
-          | .ok e => ({ y with identityBase := some e.key }, errs)
-    else (y, errs)
-  -- range
-  let (y, errs) := match t.one? "range" with
-    | none => (y, errs)
-    | some r =>
-      match Range.applyRange y.range (bytesOf r.arg) isDecimal64 y.fractionDigits with
-      | (yr, none) => ({ y with range := yr }, errs)
-      | (yr, some _) => ({ y with range := yr }, errs ++ [Err.at_ r "bad-range"])
-  -- length
-  let (y, errs) := match t.one? "length" with
-    | none => (y, errs)
-    | some l =>
-      match Range.applyLength y.length (bytesOf l.arg) with
-      | (yl, none) => ({ y with length := yl }, errs)
-      | (yl, some .negLength) => ({ y with length := yl }, errs ++ [Err.at_ l "negative-length"])
-      | (yl, some _) => ({ y with length := yl }, errs ++ [Err.at_ l "bad-length"])
-  -- enum, bit
-  let (y, errs) :=
-    match t.all "enum" with
-    | [] => (y, errs)
-    | es => let (tab, ee) := enumFold newEnum "value" es; ({ y with enum := some tab }, errs ++ ee)
-  let (y, errs) :=
-    match t.all "bit" with
-    | [] => (y, errs)
-    | bs => let (tab, ee) := enumFold newBits "position" bs; ({ y with bit := some tab }, errs ++ ee)
-  -- pattern
-  let y := { y with pattern := appendNew y.pattern ((t.all "pattern").map Stmt.arg) }
-  -- posix-pattern
-  match posixPatterns env root t with
-  | none => { ty := some y, errs := [Err.bare "other"] }
-  | some pps =>
-    let errs := errs ++ (pps.filter fun e => !env.posixOk e.arg).map fun e => Err.at_ e "bad-pattern"
-    let y := { y with posixPattern := appendNew y.posixPattern (pps.map Stmt.arg) }
-    -- union members
-    let errs := errs ++ members.flatMap (·.errs)
-    let y := { y with members := addMembers y.members members }
-    -- `if !y.Equal(y.Root) { y.Root = &y }`
-    let y := if !y.equalsRoot then { y with root := none } else y
-    { ty := some y, errs := errs }
+    let s7 := overlayLocal env root t source tdY s1
+    match posixPatterns env root t with
+    | none => { ty := some s7.1, errs := [Err.bare "other"] }
+    | some pps =>
+      let s9 := stepMembers members (stepPosix env pps s7)
+      { ty := some (fixRoot s9.1), errs := s9.2 }
 
 /-! ## The recursion -/
 
@@ -577,18 +566,10 @@ def defaultValues (own : List String) (isLeafList : Bool) (mandatory : Option St
 open Goyang.Proto in
 def hexList (l : List String) : String := "[" ++ ",".intercalate (l.map encStr) ++ "]"
 
-/-- Insertion sort by Go's string order. -/
-def sortPairs (l : List (String × Int)) : List (String × Int) :=
-  l.foldl (fun acc x =>
-    let rec ins : List (String × Int) → List (String × Int)
-      | [] => [x]
-      | y :: ys => if strLt x.1 y.1 then x :: y :: ys else y :: ins ys
-    ins acc) []
-
 open Goyang.Proto in
 def dumpEnum : Option EnumTab → String
   | none => "-"
-  | some e => "[" ++ ",".intercalate ((sortPairs e.toInt).map fun (n, v) => encStr n ++ ":" ++ toString v) ++ "]"
+  | some e => "[" ++ ",".intercalate (e.nameMap.map fun (n, v) => encBytes n ++ ":" ++ toString v) ++ "]"
 
 def rangeStr (r : YangRange) : String := Goyang.Proto.encBytes (Range.toStr r)
 
